@@ -6,123 +6,28 @@ set_option linter.unusedSimpArgs false
 namespace WaVerif.C03.Rows
 open WaVerif WaVerif.Wasm WaVerif.C03 WaVerif.Gen.C03
 
-/-- `i64.add`: signed overflow is undefined in C -/
-theorem i64_add_partial : Partial2 CVal.i64 CVal.i64 CVal.i64 Guard.addOk (wBin .add) f_i64_add := by
+theorem i64_add_ok : Full2 CVal.i64 CVal.i64 CVal.i64 (wBin .add) f_i64_add := by
   unfold f_i64_add
   c03_tac
 
-theorem i64_add_full_false : ¬ Full2 CVal.i64 CVal.i64 CVal.i64 (wBin .add) f_i64_add := by
-  intro h
-  have h := h 0x7fffffffffffffff#64 0x1#64 []
-  revert h
-  decide
-
-theorem i64_add_sound : Sound2 CVal.i64 CVal.i64 CVal.i64 (wBin .add) f_i64_add := by
-  unfold f_i64_add
-  c03_sound
-
-example : Guard.addOk 0x3#64 0x2#64 := by decide
-
-/-- `i64.sub`: signed overflow is undefined in C -/
-theorem i64_sub_partial : Partial2 CVal.i64 CVal.i64 CVal.i64 Guard.subOk (wBin .sub) f_i64_sub := by
+theorem i64_sub_ok : Full2 CVal.i64 CVal.i64 CVal.i64 (wBin .sub) f_i64_sub := by
   unfold f_i64_sub
   c03_tac
 
-theorem i64_sub_full_false : ¬ Full2 CVal.i64 CVal.i64 CVal.i64 (wBin .sub) f_i64_sub := by
-  intro h
-  have h := h 0x8000000000000000#64 0x1#64 []
-  revert h
-  decide
-
-theorem i64_sub_sound : Sound2 CVal.i64 CVal.i64 CVal.i64 (wBin .sub) f_i64_sub := by
-  unfold f_i64_sub
-  c03_sound
-
-example : Guard.subOk 0x3#64 0x2#64 := by decide
-
-/-- `i64.mul`: signed overflow is undefined in C -/
-theorem i64_mul_partial : Partial2 CVal.i64 CVal.i64 CVal.i64 Guard.mulOk (wBin .mul) f_i64_mul := by
+theorem i64_mul_ok : Full2 CVal.i64 CVal.i64 CVal.i64 (wBin .mul) f_i64_mul := by
   unfold f_i64_mul
   c03_tac
 
-theorem i64_mul_full_false : ¬ Full2 CVal.i64 CVal.i64 CVal.i64 (wBin .mul) f_i64_mul := by
-  intro h
-  have h := h 0x100000000#64 0x100000000#64 []
-  revert h
-  decide
-
-theorem i64_mul_sound : Sound2 CVal.i64 CVal.i64 CVal.i64 (wBin .mul) f_i64_mul := by
-  unfold f_i64_mul
-  c03_sound
-
-example : Guard.mulOk 0x3#64 0x2#64 := by decide
-
-/-- `i64.div_s`: no trap check: division by zero is undefined in C, not abort() -/
-theorem i64_div_s_partial : Partial2 CVal.i64 CVal.i64 CVal.i64 Guard.divS (wBin .div_s) f_i64_div_s := by
-  unfold f_i64_div_s
-  c03_tac
-
-theorem i64_div_s_full_false : ¬ Full2 CVal.i64 CVal.i64 CVal.i64 (wBin .div_s) f_i64_div_s := by
-  intro h
-  have h := h 0x1#64 0x0#64 []
-  revert h
-  decide
-
-theorem i64_div_s_sound : Sound2 CVal.i64 CVal.i64 CVal.i64 (wBin .div_s) f_i64_div_s := by
-  unfold f_i64_div_s
-  c03_sound
-
-example : Guard.divS 0x3#64 0x2#64 := by decide
-
-/-- `i64.div_u`: no trap check: division by zero is undefined in C, not abort() -/
-theorem i64_div_u_partial : Partial2 CVal.i64 CVal.i64 CVal.i64 Guard.divU (wBin .div_u) f_i64_div_u := by
+theorem i64_div_u_ok : Full2 CVal.i64 CVal.i64 CVal.i64 (wBin .div_u) f_i64_div_u := by
   unfold f_i64_div_u
   c03_tac
 
-theorem i64_div_u_full_false : ¬ Full2 CVal.i64 CVal.i64 CVal.i64 (wBin .div_u) f_i64_div_u := by
-  intro h
-  have h := h 0x1#64 0x0#64 []
-  revert h
-  decide
-
-theorem i64_div_u_sound : Sound2 CVal.i64 CVal.i64 CVal.i64 (wBin .div_u) f_i64_div_u := by
-  unfold f_i64_div_u
-  c03_sound
-
-example : Guard.divU 0x3#64 0x2#64 := by decide
-
-/-- `i64.rem_s`: INT64_MIN % -1 is undefined in C; WebAssembly yields 0 -/
-theorem i64_rem_s_partial : Partial2 CVal.i64 CVal.i64 CVal.i64 Guard.divS (wBin .rem_s) f_i64_rem_s := by
+theorem i64_rem_s_ok : Full2 CVal.i64 CVal.i64 CVal.i64 (wBin .rem_s) f_i64_rem_s := by
   unfold f_i64_rem_s
   c03_tac
 
-theorem i64_rem_s_full_false : ¬ Full2 CVal.i64 CVal.i64 CVal.i64 (wBin .rem_s) f_i64_rem_s := by
-  intro h
-  have h := h 0x8000000000000000#64 0xffffffffffffffff#64 []
-  revert h
-  decide
-
-theorem i64_rem_s_sound : Sound2 CVal.i64 CVal.i64 CVal.i64 (wBin .rem_s) f_i64_rem_s := by
-  unfold f_i64_rem_s
-  c03_sound
-
-example : Guard.divS 0x3#64 0x2#64 := by decide
-
-/-- `i64.rem_u`: no trap check: division by zero is undefined in C, not abort() -/
-theorem i64_rem_u_partial : Partial2 CVal.i64 CVal.i64 CVal.i64 Guard.divU (wBin .rem_u) f_i64_rem_u := by
+theorem i64_rem_u_ok : Full2 CVal.i64 CVal.i64 CVal.i64 (wBin .rem_u) f_i64_rem_u := by
   unfold f_i64_rem_u
   c03_tac
-
-theorem i64_rem_u_full_false : ¬ Full2 CVal.i64 CVal.i64 CVal.i64 (wBin .rem_u) f_i64_rem_u := by
-  intro h
-  have h := h 0x1#64 0x0#64 []
-  revert h
-  decide
-
-theorem i64_rem_u_sound : Sound2 CVal.i64 CVal.i64 CVal.i64 (wBin .rem_u) f_i64_rem_u := by
-  unfold f_i64_rem_u
-  c03_sound
-
-example : Guard.divU 0x3#64 0x2#64 := by decide
 
 end WaVerif.C03.Rows
